@@ -42,6 +42,7 @@ func checkC08(p *Prog, r *Report) {
 	c08ReplayEncoding(p, r)
 	c08ReexecutePerHost(p, r)
 	c08NoRelay(p, r)
+	resultThreading(p, r, "C08.result-threading", "proxy", "proxycore")
 }
 
 func c08Wiring(p *Prog, r *Report) {
@@ -488,6 +489,10 @@ func c08RawBody(p *Prog, r *Report) {
 			if isCompressedTest(c) && !ct.Truth {
 				return true
 			}
+			// none of a constant table of flags, Compressed among them, is set
+			if isAnyOfFlags(p, c, compressed) && !ct.Truth {
+				return true
+			}
 			// a repo predicate over the header flags that can only be true when the Compressed flag is clear
 			callee := c.Call.StaticCallee()
 			if callee == nil || !p.InRepo(callee) || !ct.Truth {
@@ -527,6 +532,72 @@ func c08RawBody(p *Prog, r *Report) {
 	r.count("raw_body_sites", len(sites))
 	r.check(len(bad) == 0, rule, "RawFrame.Body byte reads", "", fmt.Sprintf("%d sites", len(sites)), strings.Join(dedupe(bad), " || "))
 	_ = token.ADD
+}
+
+// isAnyOfFlags: c is slices.ContainsFunc(table, flags.Contains) over a package-level table of
+// constants that has the given flag among its elements.
+func isAnyOfFlags(p *Prog, c *ssa.Call, flag string) bool {
+	callee := c.Call.StaticCallee()
+	if callee == nil || len(c.Call.Args) != 2 {
+		return false
+	}
+	if o := callee.Origin(); o != nil {
+		callee = o
+	}
+	if callee.Pkg == nil || callee.Pkg.Pkg.Path() != "slices" || callee.Name() != "ContainsFunc" {
+		return false
+	}
+	ld, ok := c.Call.Args[0].(*ssa.UnOp)
+	if !ok {
+		return false
+	}
+	g, ok := ld.X.(*ssa.Global)
+	if !ok {
+		return false
+	}
+	elems, ok := p.constSliceLiteral(g)
+	if !ok {
+		return false
+	}
+	has := false
+	for _, e := range elems {
+		if e.ExactString() == flag {
+			has = true
+		}
+	}
+	if !has {
+		return false
+	}
+	pred := c.Call.Args[1]
+	if ct, ok := pred.(*ssa.ChangeType); ok {
+		pred = ct.X
+	}
+	mc, ok := pred.(*ssa.MakeClosure)
+	if !ok || len(mc.Bindings) != 1 {
+		return false
+	}
+	bound, ok := mc.Fn.(*ssa.Function)
+	if !ok || !strings.Contains(bound.Synthetic, "bound") {
+		return false
+	}
+	m := unwrapBound(bound)
+	return m != nil && m.Name() == "Contains" && typeIs(mc.Bindings[0].Type(), "primitive", "HeaderFlag")
+}
+
+// unwrapBound: the method a bound-method wrapper forwards to.
+func unwrapBound(fn *ssa.Function) *ssa.Function {
+	var target *ssa.Function
+	n := 0
+	eachCall(fn, func(c ssa.CallInstruction) {
+		if callee := c.Common().StaticCallee(); callee != nil {
+			target = callee
+			n++
+		}
+	})
+	if n == 1 {
+		return target
+	}
+	return nil
 }
 
 // c08ReplayEncoding: the prepared cache is shared by all sessions (every protocol version,
@@ -650,7 +721,6 @@ func c08ReplayEncoding(p *Prog, r *Report) {
 		fatalf("rule %s: only %d stores of re-prepare frames found (2 confirmed by hand)", rule, n)
 	}
 }
-
 
 // c08ReexecutePerHost: the bound on re-executions after a re-prepare belongs to one host.
 func c08ReexecutePerHost(p *Prog, r *Report) {
@@ -801,10 +871,89 @@ func c08ReexecutePerHost(p *Prog, r *Report) {
 		if !usesCount {
 			lb = append(lb, "the count of the request's prepared statements is not what the number of re-executions on a host is compared with")
 		}
+		// ... and the comparison decides: where it says the limit is reached, the host walk is
+		// told to move on (a verdict computed into a variable nobody reads bounces the request
+		// between PREPARE and EXECUTE on a host that keeps answering UNPREPARED)
+		isLimitCmp := func(v ssa.Value) (*ssa.BinOp, bool) {
+			bo, ok := v.(*ssa.BinOp)
+			if !ok {
+				return nil, false
+			}
+			for i, side := range []ssa.Value{bo.X, bo.Y} {
+				for _, o := range origins(side) {
+					if c, ok := o.(*ssa.Call); ok {
+						for _, cf := range counters {
+							if c.Call.StaticCallee() == cf {
+								// reached when counter >= limit: the limit is on side i
+								switch bo.Op {
+								case token.GEQ, token.GTR:
+									return bo, i == 1
+								case token.LSS, token.LEQ:
+									return bo, i == 0
+								}
+							}
+						}
+					}
+				}
+			}
+			return nil, false
+		}
+		sm := newSim(p)
+		sm.Inline = func(f *ssa.Function) bool {
+			for _, h := range scope {
+				if h == f && f != exec {
+					for _, cf := range counters {
+						if cf == f {
+							return false
+						}
+					}
+					return true
+				}
+			}
+			return false
+		}
+		sm.OnBranch = func(st *State, cond ssa.Value, truth bool) {
+			c, neg := stripNot(cond)
+			if bo, reachedWhenTrue := isLimitCmp(c); bo != nil {
+				if (truth != neg) == reachedWhenTrue {
+					st.aux["limit"] = "reached"
+				} else {
+					st.aux["limit"] = "below"
+				}
+			}
+		}
+		var walkBad []string
+		sm.Model = func(s2 *Sim, st *State, call ssa.CallInstruction, callee *ssa.Function) []*State {
+			if callee != nil && callee == rr.execLoop && len(call.Common().Args) >= 2 {
+				a := s2.eval(st, call.Common().Args[len(call.Common().Args)-1])
+				if b, known := a.isBool(); st.aux["limit"] == "reached" && !(known && b) {
+					walkBad = append(walkBad, p.Pos(call.Pos())+": the limit of re-executions on this host is reached, but the host walk is not told to move on to the next host (it is called with "+a.String()+")")
+				}
+				st.addEff("walk")
+				return []*State{st}
+			}
+			return nil
+		}
+		init := newState()
+		for _, par := range exec.Params[1:] {
+			if b, ok := par.Type().Underlying().(*types.Basic); ok && b.Kind() == types.Bool {
+				init.vals[par] = avBool(false)
+			}
+		}
+		reached := 0
+		for _, o := range sm.Run(exec, init) {
+			if !o.Panic && o.St.aux["limit"] == "reached" {
+				reached++
+			}
+		}
+		r.count("sim_states", sm.Nodes)
+		if reached == 0 {
+			walkBad = append(walkBad, "no path of Execute on which the limit of re-executions is reached")
+		}
+		lb = append(lb, dedupe(walkBad)...)
 	}
 	r.check(len(lb) == 0, rule, rr.req.Obj().Name()+".Execute:limit", p.Pos(exec.Pos()), "", strings.Join(dedupe(lb), " || "))
 }
-
 
 // c08NoRelay: an UNPREPARED reply for a statement that is in the prepared cache never reaches
 // the request (and so the client) as it is.
@@ -835,7 +984,10 @@ func c08NoRelay(p *Prog, r *Report) {
 	}
 	sendFn := p.methodOf(cc, "Send")
 	s := newSim(p)
-	s.Inline = func(f *ssa.Function) bool { return false }
+	// the tail of the interception may live in private helpers of the connection
+	s.Inline = func(f *ssa.Function) bool {
+		return recvNamed(f) == cc && f != sendFn && f != fn && !f.Object().Exported() && onlyCalledFrom(p, f, fn, 2)
+	}
 	s.Model = func(sm *Sim, st *State, call ssa.CallInstruction, callee *ssa.Function) []*State {
 		cm := call.Common()
 		switch {
@@ -853,7 +1005,7 @@ func c08NoRelay(p *Prog, r *Report) {
 			return []*State{okSt, fail}
 		case cm.IsInvoke() && cm.Method.Name() == "Execute" && recvNamedIs(cm.Method, "proxycore", "Request"):
 			nb, known := sm.eval(st, cm.Args[0]).isBool()
-			if cm.Value == ssa.Value(reqPar) && known && nb {
+			if a := sm.eval(st, cm.Value); (cm.Value == ssa.Value(reqPar) || a.K == avSym && a.S == "req") && known && nb {
 				st.addEff("moved-on")
 			} else {
 				st.addEff("other-execute")
